@@ -45,6 +45,7 @@ PLAN = {
         "engines": lambda tier: [
             _e("release", "pipemc", "c08"),
             _e("script", "indep/loomdrv.py", "c08", also_build=[("loom", "loommc")]),
+            _shared(_e("release", "seqmc", "c16", "--shards", "4"), r"does not decode|decoder rejects|creation failed|does not terminate", "C08 on the schedules the free-running pool of ncpu-1 workers takes by itself (one sampled schedule per insertion sequence of the C16 enumeration, mixing raw and compressed clusters, file and memory sources): creation terminates and the produced pack decodes"),
         ],
         "assumptions": [
             "the pipeline model (appendix B of DESIGN.md) abstracts what happens inside one compression call; every model trace replayed is confirmed step by step through Progress callbacks, and a divergence is a MACHINERY-ERROR, never a verdict",
@@ -55,7 +56,10 @@ PLAN = {
     },
     "C14": {
         "level": "translation_validation",
-        "engines": lambda tier: [_e("script", "indep/c14.py", "c14", also_build=[("release", "corpusmc"), ("release", "codec")])],
+        "engines": lambda tier: [
+            _e("script", "indep/c14.py", "c14", also_build=[("release", "corpusmc"), ("release", "codec")]),
+            _shared(_e("release", "seqmc", "c16", "--shards", "4"), r"independent decoder|not stored verbatim|does not decode", "C14's oracle with a second independent decoder (the harness's Rust one: own CRC-32C, own layout tables, codec crates) over the insertion sequences of the C16 enumeration: cluster tails, offsets and stored bytes as written decode to what was inserted"),
+        ],
         "assumptions": [
             "the independent decoder (indep/jbkdecode.py: own CRC-32C, own BLAKE3, own layout tables) follows the bytes the pinned writer produces (DESIGN appendix A); where spec/*.rst differs the bytes win and the difference is listed in the decoder's header",
             "zstd/lz4 streams are decompressed through the codec crates directly (harness `codec` binary), lzma through the Python stdlib",
